@@ -326,6 +326,7 @@ func checkC10(c *Ctx) {
 	// ---- O4 instrumented call -------------------------------------------------------------------
 	c.checkExec("O4 exec")
 	c.checkNewCall("O4 newcall")
+	c.checkTimerSinkAppendOnly("O6 sink-append-only")
 }
 
 func (c *Ctx) checkExec(rule string) {
@@ -604,4 +605,63 @@ func constantString(k *types.Const) string {
 		return s[1 : len(s)-1]
 	}
 	return s
+}
+
+// checkTimerSinkAppendOnly (O6): on a scope without a reporter the recorded durations live in
+// timerValues.values until Snapshot copies them. Every assignment to that field must be
+// `values = append(values, ...)` (or fresh storage): a re-slice such as values[:0] or values[:n] keeps
+// the backing array, so later records overwrite durations that were recorded (or sealed elsewhere)
+// before - the count stays right while early values are lost and later ones appear twice.
+func (c *Ctx) checkTimerSinkAppendOnly(rule string) {
+	fVals := c.field("", "timerValues", "values")
+	if fVals == nil {
+		c.missing(rule, "tally.timerValues.values")
+		return
+	}
+	n := 0
+	okAll := true
+	for _, ref := range c.fieldRefs(fVals) {
+		fa, ok := ref.(*ssa.FieldAddr)
+		if !ok || fa.Referrers() == nil {
+			continue
+		}
+		for _, u := range *fa.Referrers() {
+			st, isSt := u.(*ssa.Store)
+			if !isSt || st.Addr != ssa.Value(fa) {
+				continue
+			}
+			n++
+			fn := st.Parent()
+			c.sawFunc(c.fnKey(fn))
+			v := stripConv(st.Val)
+			good := false
+			switch x := v.(type) {
+			case *ssa.MakeSlice:
+				good = true
+			case *ssa.Const:
+				good = x.IsNil()
+			case *ssa.Slice:
+				// make([]T, 0, K) with constant K: a slice of a fresh array
+				if al, isAl := x.X.(*ssa.Alloc); isAl && al.Parent() == fn {
+					if _, isArr := deref(al.Type()).Underlying().(*types.Array); isArr {
+						good = true
+					}
+				}
+			case *ssa.Call:
+				if isBuiltin(x, "append") {
+					if f, _ := loadedField(x.Call.Args[0]); f == fVals {
+						good = true
+					}
+				}
+			}
+			if !good {
+				okAll = false
+				c.bad(rule, c.fnKey(fn), st.Pos(), "timerValues.values is assigned something other than append(values, ...) or fresh storage (a re-slice keeps the old backing array): durations recorded earlier are overwritten by later ones although the number of values stays right", c.describe(st))
+			}
+		}
+	}
+	if okAll {
+		c.ok(rule, "tally.timerValues.values", fVals.Pos(), fmt.Sprintf("every assignment (%d) appends to the list or starts from fresh storage", n))
+	}
+	c.floor(rule, n, 1)
 }
